@@ -195,8 +195,8 @@ def run_pool(mod, seed, tier, budget_s, max_runs, known_keys, builddir, run_cap_
                 wk["alive"] = False
                 idx, op, _ts = struct.unpack_from("<qqd", wk["journal"], 0)
                 if idx >= 0:  # died inside run idx
-                    if wk.get("killed_for_timeout"):
-                        pr.timeouts.append(idx)
+                    if wk.get("killed_for_timeout") or (os.WIFEXITED(status) and os.WEXITSTATUS(status) == 87):
+                        pr.timeouts.append(idx)     # wall cap, or the scheduler's simulated-tick cap (exit 87): the run is too long, not wrong
                     else:
                         sig = os.WTERMSIG(status) if os.WIFSIGNALED(status) else -os.WEXITSTATUS(status)
                         pr.deaths.append((idx, op, sig))
@@ -263,16 +263,19 @@ def run_isolated(mod, case, known_keys, builddir, tier="quick", cap_s=120.0):
     _, status = os.waitpid(pid, 0)
     import shutil
     shutil.rmtree(tmproot, ignore_errors=True)
-    if timed_out:
+    if timed_out or (os.WIFEXITED(status) and os.WEXITSTATUS(status) == 87):
         return {"timeout": True, "viols": []}
     if os.WIFSIGNALED(status) or not buf:
         _, op, _ = struct.unpack_from("<qqd", journal, 0)
-        sig = os.WTERMSIG(status) if os.WIFSIGNALED(status) else -1
+        sig = os.WTERMSIG(status) if os.WIFSIGNALED(status) else -(os.WEXITSTATUS(status) or 1)
         return {"died": sig, "viols": [death_violation(op, sig)]}
     return json.loads(buf)
 
 
 def death_violation(op, sig):
+    if sig == -86:
+        return {"oracle": "liveness", "clause": "deadlock: every thread is blocked and no timer or client arrival is pending",
+                "detail": "scheduler exit 86 while executing op %s" % op, "key": "deadlock"}
     return {"oracle": "process", "clause": "calling process died",
             "detail": "signal %s while executing op %s" % (sig, op), "key": "process-died"}
 
